@@ -272,29 +272,70 @@ class ObtainQuantitySpec(FunctionSpec):
     the rules say, its caption is caption or ''."""
 
     fq = Q_MOD + ":ObtainQuantity"
+    probe = "obtain"
     props = ("C07", "C16", "C19", "C05", "C02")
     callees = (Q_MOD + ":Quantity.__init__", UDB + ":UnitDatabase.GetDefaultCategory", UDB + ":FixUnitIfIsLegacy")
 
     def variants(self, tier):
-        return [(ck, pk) for ck in ("cat", "nocat") for pk in ("nocap", "cap")]
+        out = [(ck, pk) for ck in ("cat", "nocat") for pk in ("nocap", "cap")]
+        # composing-map form: number of entries, caption, kind of the [unit, exp] pairs
+        for n in (1, 2) + ((3,) if tier == "thorough" else ()):
+            for pk in ("nocap", "cap"):
+                for pair in ("list", "tuple"):
+                    out.append(("dict%d" % n, pk, pair))
+        return out
 
     def setup(self, I, variant):
-        ck, pk = variant
+        ck, pk = variant[0], variant[1]
         db, R = make_db(I)
+        cap = nm("caption") if pk == "cap" else SNone
+        K = RegK(R, lambda I, k, t: self.denote(I, R, db, k, t))
+        db.o.fields["quantities_cache"] = K
+        f = SFunc(I.repo.func(self.fq))
+        if ck.startswith("dict"):
+            n = int(ck[4:])
+            P = I.P
+            from pyvc import strparts
+
+            strparts.install(P)
+            ents = fresh_entries(P, n, "d")
+            if n > 1:
+                P.assume(z3.Distinct(*[c for c, _, _ in ents]), "pre:dict keys are distinct")
+            items = []
+            for c, u, e in ents:
+                R.touch(c, u)
+                pair = [sname(u), SNum(e, "int")]
+                pv = SRef(P.alloc(HList(pair, region="param"))) if variant[2] == "list" else STuple(pair)
+                items.append((sname(c), pv))
+            m = SRef(P.alloc(HDict(items, ordered=True, region="param")))
+            st = R.snapshot()
+            return {"f": f, "args": [m, SNone, cap], "R": R, "st": st, "db": db, "K": K, "K0": K.K_dom, "unit": m, "category": SNone, "unknown_unit_caption": cap, "dict_entries": ents, "pair_kind": variant[2]}
         c = nm("category") if ck == "cat" else SNone
         u = nm("unit")
-        cap = nm("caption") if pk == "cap" else SNone
         R.touch(u.name)
         if c is not SNone:
             R.touch(c.name)
         st = R.snapshot()
-        K = RegK(R, lambda I, k, t: self.denote(I, R, db, k, t))
-        db.o.fields["quantities_cache"] = K
-        f = SFunc(I.repo.func(self.fq))
         return {"f": f, "args": [u, c, cap], "R": R, "st": st, "db": db, "K": K, "K0": K.K_dom, "unit": u, "category": c, "unknown_unit_caption": cap}
 
     def denote(self, I, R, db, k, t):
         """CC(K): the quantity interned under key k is the one the miss path would build now"""
+        if k.items and isinstance(k.items[0], STuple):
+            # composing-map key ((category, (unit, exp)), ..., [caption])
+            P = I.P
+            items, cap = [], SNone
+            for it in k.items:
+                if isinstance(it, STuple):
+                    c_, ue = it.items
+                    items.append((c_, SRef(P.alloc(HList(list(ue.items), region="quantity-internal")))))
+                    P.assume(S(R.C_dom, c_.name), "inv:CC(K) interned key is constructible")
+                    R.on_cat(c_.name)
+                else:
+                    cap = it
+            m = SRef(P.alloc(HDict(items, ordered=True, region="quantity-internal")))
+            q = derived_from_map(I, R, db, m, cap)
+            q.o.from_cache = True
+            return q
         c, u, cap = k.items
         st = R.snapshot()
         if c is SNone:
@@ -322,7 +363,9 @@ class ObtainQuantitySpec(FunctionSpec):
         R, st, db = ctx["R"], ctx["st"], ctx["db"]
         u, c, cap = ctx["unit"], ctx["category"], ctx["unknown_unit_caption"]
         if isinstance(u, SRef) and isinstance(u.o, HDict) and c is SNone:
-            return self.dict_cases(I, ctx)
+            if ctx.get("$call"):
+                return self.dict_cases(I, ctx)
+            return self.dict_verify_cases(I, ctx)
         if not (isinstance(u, SStr) and (c is SNone or isinstance(c, SStr)) and (cap is SNone or isinstance(cap, SStr))):
             return [unspecified("other-forms", T)]
         is_call = ctx.get("$call")
@@ -363,6 +406,74 @@ class ObtainQuantitySpec(FunctionSpec):
                 ret("dict/derived", e1 != 1, lambda I: derived_from_map(I, R, db, ctx["unit"], cap), props=("C07", "C04")),
             ]
         return [ret("dict/derived", T, lambda I: derived_from_map(I, R, db, ctx["unit"], cap), props=("C07", "C04"))]
+
+    def dict_verify_cases(self, I, ctx):
+        """ObtainQuantity(OrderedDict) against its body: a single entry with exponent 1 is the simple
+        request (category, unit); otherwise the quantity is interned under the key made of the
+        entries and the caption, its composing map is the argument's, pairs are lists (QI)."""
+        R, st, db, K = ctx["R"], ctx["st"], ctx["db"], ctx["K"]
+        ents, cap = ctx["dict_entries"], ctx["unknown_unit_caption"]
+        out = []
+        derived = T
+        if len(ents) == 1:
+            c0, u0, e0 = ents[0]
+            derived = e0 != 1
+            for x in obtain_simple_cases(I, R, st, db, sname(u0), sname(c0), cap, lambda cn, ures: (cn, ures)):
+                g = z3.And(e0 == 1, x.guard)
+                if x.kind == "raise":
+                    out.append(rai("single-exp1/" + x.name, g, x.exc, props=("C05",)))
+                elif x.kind == "any":
+                    out.append(unspecified("single-exp1/" + x.name, g))
+                else:
+                    cn, ures = x.value(I)
+
+                    def chk(I, res, cn=cn, ures=ures):
+                        if not (isinstance(res, SRef) and isinstance(res.o, HObj) and res.o.cls.name == "Quantity"):
+                            return False
+                        f = res.o.fields
+                        return z3.And(to_z3b(I.equal(f["_category"], sname(cn))), to_z3b(I.equal(f["_unit"], sname(ures))), to_z3b(I.equal(f["_unknown_unit_caption"], caption_norm(cap))), to_z3b(I.equal(f["_is_derived"], SBool(False))), z3.BoolVal(any(o.o is res.o for _, o in K.stores + K.hits)))
+
+                    out.append(ret("single-exp1/" + x.name, g, props=("C07", "C04"), check=chk))
+        # derived: every category must be registered (Quantity.__init__ reads its quantity type)
+        regs = [S(st["C_dom"], c) for c, _, _ in ents]
+        allreg = z3.And(*regs) if regs else T
+        kt = self.dict_key(I, ctx)
+        hit = S(ctx["K0"], kt)
+        out.append(rai("derived/unregistered-category", z3.And(derived, z3.Not(hit), z3.Not(allreg)), "InvalidQuantityTypeError", props=("C05",)))
+
+        def chk_d(I, res):
+            if not (isinstance(res, SRef) and isinstance(res.o, HObj) and res.o.cls.name == "Quantity"):
+                return False
+            f = res.o.fields
+            m = f.get("_category_to_unit_and_exps")
+            if not (isinstance(m, SRef) and isinstance(m.o, HDict) and len(m.o.entries) == len(ents)):
+                return False
+            conj = [to_z3b(I.equal(f["_unknown_unit_caption"], caption_norm(cap))), to_z3b(I.equal(f["_is_derived"], SBool(True)))]
+            fresh_q = getattr(res.o, "oid", 0) > ctx.get("oid_mark", 0) and not getattr(res.o, "from_cache", False)
+            if fresh_q and (m.o is ctx["unit"].o or m.o.oid <= ctx.get("oid_mark", 0)):
+                return False  # QI: a new quantity owns its composing map (not the caller's dict)
+            for (k, v), (c, u, e) in zip(m.o.entries, ents):
+                if not (isinstance(v, SRef) and isinstance(v.o, HList) and len(v.o.items) == 2):
+                    return False  # QI: the [unit, exp] pairs of a quantity are lists
+                if fresh_q and v.o.oid <= ctx.get("oid_mark", 0):
+                    return False  # ... and new ones
+                conj += [k.name == c, v.o.items[0].name == u, v.o.items[1].t == e]
+            conj.append(z3.BoolVal(any(o.o is res.o for _, o in K.stores + K.hits)))
+            return z3.And(*conj)
+
+        out.append(ret("derived/interned", z3.And(derived, z3.Or(hit, allreg)), props=("C07", "C04", "C03"), check=chk_d))
+        return out
+
+    def dict_key(self, I, ctx):
+        ents, cap = ctx["dict_entries"], ctx["unknown_unit_caption"]
+        items = [STuple([sname(c), STuple([sname(u), SNum(e, "int")])]) for c, u, e in ents]
+        keyv = STuple(items + ([cap] if cap is not SNone else []))
+        # `if unknown_unit_caption:` — an empty caption string is not part of the key
+        if cap is not SNone:
+            t_with = encode_key(I, keyv)
+            t_without = encode_key(I, STuple(items))
+            return z3.If(cap.name == lit(""), t_without, t_with)
+        return encode_key(I, keyv)
 
     def result_check(self, ctx, case):
         """for the body: the returned object is the interned one and denotes the request"""
@@ -410,8 +521,13 @@ class ObtainQuantitySpec(FunctionSpec):
         # K ⊆ K' : monotone
         kx = z3.Const("k!any", KeyS)
         obs.append(("intern[K ⊆ K']", ("C07",), z3.Implies(S(ctx["K0"], kx), S(K.K_dom, kx))))
+        if "dict_entries" in ctx:
+            return obs + self.dict_intern_obligations(I, ctx, outcome)
         # a hit on the request key leaves K unchanged
         kt = encode_key(I, STuple([ctx["category"], ctx["unit"], ctx["unknown_unit_caption"]]))
+        if outcome[0] == "return":
+            exp, specified = self.expected_K(I, ctx, kt)
+            obs.append(("intern[K' is exactly K plus the keys of this request]", ("C07", "C19"), z3.Implies(specified, K.K_dom == exp)))
         obs.append(("intern[hit leaves K unchanged]", ("C07",), z3.Implies(S(ctx["K0"], kt), K.K_dom == ctx["K0"])))
         if outcome[0] == "raise":
             obs.append(("unchanged_on_raise[K]", ("C05", "C07"), K.K_dom == ctx["K0"]))
@@ -423,6 +539,59 @@ class ObtainQuantitySpec(FunctionSpec):
             except PyRaise as e:
                 obs.append(("intern[repeated request returns the identical object]", ("C07",), False))
         return obs
+
+
+def _expected_K(self, I, ctx, kt):
+    """the intern table after a successful simple-form request"""
+    R, st = ctx["R"], ctx["st"]
+    u, c, cap = ctx["unit"], ctx["category"], ctx["unknown_unit_caption"]
+    K0 = ctx["K0"]
+    if c is not SNone:
+        return z3.If(S(K0, kt), K0, z3.Store(K0, kt, T)), T
+    # category resolved from the unit: both the resolved key and the request key denote the quantity
+    exp = K0
+    specified = T
+    for n, g, k, x in getdefaultcategory_cases(R, st, u.name):
+        if k == "raise" or n == "unregistered":
+            continue
+        isnone, cat = x
+        if n == "legacy":
+            # a legacy spelling whose current unit has no (or an empty) default category: outside the contract
+            specified = z3.And(specified, z3.Not(z3.And(g, z3.Or(isnone, cat == lit("")))))
+        kr = encode_key(I, STuple([sname(cat), u, cap]))
+        miss = z3.If(S(K0, kr), K0, z3.Store(z3.Store(K0, kr, T), kt, T))
+        exp = z3.If(g, miss, exp)
+    return z3.If(S(K0, kt), K0, exp), specified
+
+
+def _dict_intern_obligations(self, I, ctx, outcome):
+    K = ctx["K"]
+    obs = []
+    ents = ctx["dict_entries"]
+    K0 = ctx["K0"]
+    if outcome[0] == "raise":
+        obs.append(("unchanged_on_raise[K]", ("C05", "C07"), K.K_dom == K0))
+        return obs
+    if len(ents) == 1:
+        c0, u0, e0 = ents[0]
+        k3 = encode_key(I, STuple([sname(c0), sname(u0), ctx["unknown_unit_caption"]]))
+        simple = z3.If(S(K0, k3), K0, z3.Store(K0, k3, T))
+    else:
+        e0, simple = None, K0
+    kt = self.dict_key(I, ctx)
+    derived = z3.If(S(K0, kt), K0, z3.Store(K0, kt, T))
+    exp = derived if e0 is None else z3.If(e0 == 1, simple, derived)
+    obs.append(("intern[K' is exactly K plus the key of this request (entries and caption)]", ("C07",), K.K_dom == exp))
+    try:
+        r2 = I.call(ctx["f"], ctx["args"], {})
+        obs.append(("intern[repeated request returns the identical object]", ("C07",), I.identical(outcome[1], r2)))
+    except PyRaise:
+        obs.append(("intern[repeated request returns the identical object]", ("C07",), False))
+    return obs
+
+
+ObtainQuantitySpec.expected_K = _expected_K
+ObtainQuantitySpec.dict_intern_obligations = _dict_intern_obligations
 
 
 def havoc_memo(I, R):
